@@ -33,7 +33,7 @@ def shards(tier):
 def floors(tier):
     return {"trees": 5000, "error_lists": 800, "lists_all_orders": 500, "d3_required_lists": 100,
             "propertyNames_lists": 100, "duplicate_path_keyword_lists": 200, "depth3_lists": 100,
-            "nodes_checked": 20000, "error_free_lookups": 5000, "context_lists": 400, "context_lists_below_nonempty_path": 150, "other_trees_used_through_setitem": 150}
+            "nodes_checked": 20000, "error_free_lookups": 5000, "context_lists": 400, "context_lists_below_nonempty_path": 150, "other_trees_used_through_setitem": 150, "lists_with_trivial_members_among_applicators": 40}
 
 
 def value_at(instance, path):
@@ -276,6 +276,27 @@ def run(ctx):
         if ctx.mine(idx):
             one_list(ctx, rr, d, schema, inst)
             ctx.sample({"draft": d, "schema": schema, "instance": inst})
+    # positional and named applicators whose members are partly trivial (true / {} / false): the errors of the others sit where
+    # THEIR elements sit, and the elements without errors can be looked up
+    for d in impl.DRAFTS:
+        for T in ([True, {}] if d >= 6 else [{}]):
+            obj = {"properties": {"a": {"type": "integer"}}}
+            shapes = [
+                ({"items": [T, {"type": "string"}, T, obj, T]}, [[{"a": 1}, 5, {"a": 1}, {"a": "x"}, [1]], [{"a": 1}, "s", 3, {"a": 2}], [[1], 1, [2], {"a": None, "b": [0]}]]),
+                ({"items": [T, T, obj], "additionalItems": obj}, [[{"a": "x"}, {"a": "y"}, {"a": "z"}, {"a": "w", "c": {"k": 1}}], [1, 2, {"a": [1]}, {"a": 1}, {"a": 1.5}]]),
+                ({"properties": {"p": T, "q": obj, "r": T}, "additionalProperties": obj}, [{"p": {"a": "x"}, "q": {"a": "x", "k": [1]}, "r": [1], "s": {"a": "y"}}]),
+                ({"items": {"items": [T, {"type": "null"}, T, {"type": "null"}]}}, [[[{"k": 1}, 1, {"k": 2}, 2], [0, None, {"z": [1]}, 3]]]),
+                ({"properties": {"x": {"items": [T, obj]}}}, [{"x": [{"a": "no"}, {"a": "no", "b": {"c": 1}}], "y": {"k": 1}}]),
+            ]
+            if d >= 6:
+                shapes += [({"items": [False, T, {"type": "string"}]}, [[{"a": 1}, {"b": 2}, {"c": 3}], [1]]),
+                           ({"items": [T, {"contains": {"type": "null"}}, T, False]}, [[[1], [1, {"k": 2}], [2], [3]]])]
+            for schema, insts in shapes:
+                for inst in insts:
+                    idx += 1
+                    if ctx.mine(idx):
+                        ctx.count("lists_with_trivial_members_among_applicators")
+                        one_list(ctx, rr, d, schema, inst)
     rng = ctx.rng
     for i in range(ctx.scale(900, 15000)):
         d = impl.DRAFTS[i % 4]
